@@ -68,7 +68,7 @@ class TlcResult:
     def coverage(self):
         """Per-action counts from `-coverage 1` output: {action: (distinct, total)}."""
         cov = {}
-        for m in re.finditer(r"<(\w+) line \d+, col \d+ to line \d+, col \d+ of module (\w+)>: (\d+):(\d+)", self.out):
+        for m in re.finditer(r"<(\w+) line \d+, col \d+ to line \d+, col \d+ of module (\w+)(?: \([\d ]+\))?>: (\d+):(\d+)", self.out):
             cov[m.group(1)] = (int(m.group(3)), int(m.group(4)))
         return cov
 
